@@ -39,11 +39,15 @@ VARIABLES desc,   \* the ring descriptor
 
 vars == <<desc, out>>
 
+(* TLCEval forces TLC to evaluate the (otherwise lazily re-evaluated) function values once. *)
 Compute(d) ==
-    [look |-> [k \in Key |->
-                 LET ord == WalkOrder(NK, d, k)
-                 IN [op \in OpNames |-> [za \in BOOLEAN |-> [rf \in RFSet |-> LookupOn(d, ord, Ops[op], rf, za)]]]],
-     rset |-> [op \in OpNames |-> [za \in BOOLEAN |-> [rf \in RFSet |-> ReplicationSetFor(d, Ops[op], rf, za)]]]]
+    [look |-> TLCEval([k \in Key |->
+                 LET ord == TLCEval(WalkOrder(NK, d, k))
+                 IN TLCEval([op \in OpNames |-> TLCEval([za \in BOOLEAN |->
+                       LET marks == TLCEval(Marks(d, Ops[op], za, ord))    \* shared by all rf
+                       IN TLCEval([rf \in RFSet |-> ResultOn(d, ord, Ops[op], rf, Pick(ord, marks, rf))])])])]),
+     rset |-> TLCEval([op \in OpNames |-> TLCEval([za \in BOOLEAN |-> TLCEval([rf \in RFSet |->
+                        ReplicationSetFor(d, Ops[op], rf, za)])])])]
 
 Empty == [i \in {} |-> 0]
 
